@@ -11,6 +11,9 @@ timed out.  Modes of a run:
     "closed-pipe"  stdout is a pipe into `head -n <keep_lines>`: the reader goes away after that many lines and every later
                    write fails with EPIPE (what `mchap ... | head` does);
 
+A run submitted with `quiet=<seconds>` also counts as hung (exit code 124) once it has begun to write, has then written nothing
+for that long and is still running - a 7-locus run writes all its records within a second or two of the header.
+
 `kill_locus` wraps `program.call_locus` (harness side, nothing in /repo is touched) so that the WORKER process reaching
 the named locus is killed with SIGKILL (what the kernel's OOM killer does to the largest process).
 """
@@ -68,6 +71,8 @@ class _Run:
         mode = spec.get("mode", "capture")
         self.t0 = time.time()
         self.deadline = self.t0 + spec["timeout"]
+        self.size, self.last_change = 0, self.t0
+        self.why = ""
         if mode == "devfull":
             sink = open("/dev/full", "w")
             self.p = subprocess.Popen(cmd, env=env, stdout=sink, stderr=self.ferr, start_new_session=True)
@@ -86,8 +91,20 @@ class _Run:
         """None while running, else (stdout, exit code, stderr, seconds)"""
         rc = self.p.poll()
         if rc is None:
-            if time.time() < self.deadline:
+            now = time.time()
+            quiet = self.spec.get("quiet")
+            stalled = False
+            if quiet and self.fout is not None:
+                # a run that has started to write (the header is out) and then writes nothing for `quiet` seconds while its
+                # main process is still there does not make progress any more
+                size = os.fstat(self.fout.fileno()).st_size
+                if size != self.size:
+                    self.size, self.last_change = size, now
+                stalled = size > 0 and now - self.last_change > quiet
+            if now < self.deadline and not stalled:
                 return None
+            self.why = (f"no output for {quiet} s after {self.size} bytes while the main process is still running"
+                        if stalled else f"no exit within {self.spec['timeout']} s")
             rc = 124
         if rc != 0:
             _killpg(self.p)                   # also removes orphaned pool / manager processes of a failed run
@@ -109,7 +126,7 @@ class _Run:
         err = self.ferr.read()
         self.ferr.close()
         if rc == 124:
-            err = f"timeout after {self.spec['timeout']} s\n" + err
+            err = self.why + "\n" + err
         return out, rc, err, time.time() - self.t0
 
 
@@ -121,9 +138,9 @@ class Jobs:
         self.pending, self.running, self.done = [], [], {}
         self.n = 0
 
-    def submit(self, label, argv, exp, timeout=240, env=None, mode="capture", kill_locus=None, keep_lines=0):
+    def submit(self, label, argv, exp, timeout=240, env=None, mode="capture", kill_locus=None, keep_lines=0, quiet=None):
         self.pending.append((self.n, {"label": label, "argv": list(argv), "exp": exp, "timeout": timeout, "env": env, "mode": mode,
-                                      "kill_locus": kill_locus, "keep_lines": keep_lines}))
+                                      "kill_locus": kill_locus, "keep_lines": keep_lines, "quiet": quiet}))
         self.n += 1
         self.pump()
 
